@@ -137,6 +137,7 @@ type Exec struct {
 	dropped map[string]int
 	analyzedFns map[*ssa.Function]bool
 	pruned int
+	pendingClo []Val
 }
 
 func (x *Exec) fresh(prefix string) string {
@@ -507,7 +508,7 @@ func (x *Exec) bornFact(st *State, v Val) {
 	case "Slice":
 		x.assume(st, fmt.Sprintf("(and (< (born (s.arr %s)) %s) (>= (s.len %s) 0) (>= (s.off %s) 0) (<= (s.len %s) (s.cap %s)))", v.S, st.now, v.S, v.S, v.S, v.S))
 	case "Iface":
-		x.assume(st, fmt.Sprintf("(and (< (born (i.val %s)) %s) (>= (i.tag %s) 0))", v.S, st.now, v.S))
+		x.assume(st, fmt.Sprintf("(and (< (born (i.val %s)) %s) (>= (i.tag %s) 0) (=> (= (i.tag %s) 0) (= (i.val %s) 0)))", v.S, st.now, v.S, v.S, v.S))
 	}
 }
 
@@ -727,6 +728,8 @@ func (x *Exec) callModifies(c *ssa.CallCommon, mods map[string]bool) bool {
 	if callee == nil {
 		if mc, ok := c.Value.(*ssa.MakeClosure); ok {
 			callee = mc.Fn.(*ssa.Function)
+		} else if rc := resolveCallee(c); rc != nil {
+			callee = rc
 		} else {
 			return !x.dynPure()
 		}
